@@ -111,6 +111,13 @@ def _unjkw(kw):
 
 
 def replay_case(case):
+    if case.get("kind") == "unvalidated":
+        e = next(x for x in C.entries() if x.label == case["entry"])
+        try:
+            m = UBXReader.parse(bytes.fromhex(case["x"]), msgmode=e.mode, validate=0, parsebitfield=case["pbf"])
+        except Exception:  # noqa: BLE001
+            return []
+        return frame_checks(m, e.clsid, e.mode, f"parsed_with_VALNONE|{case['what']}")[1]
     if case.get("kind") == "anyvalue":
         e = next(x for x in C.entries() if x.label == case["entry"])
         kw0, vals = hostile_field_values(e)
@@ -232,6 +239,33 @@ def run_any_value(e, acc):
             acc.violation(key, {"kind": "anyvalue", "entry": e.label, "field": f.name, "vclass": vclass}, f"{e.label} {f.name}: {detail}")
 
 
+def run_parsed_unvalidated(e, acc):
+    """A message obtained by parsing a frame whose checksum or length field is damaged, with validate=VALNONE:
+    it is a message like any other - serialize() must give a well-formed frame that parse accepts."""
+    pl = C.build_payload(e, lambda x: 1, 1, lambda i: (5 * i + 2) % 250)
+    if not pl:
+        return
+    good = ref.frame(e.clsid[0], e.clsid[1], pl)
+    damaged = {
+        "checksum_a": good[:-2] + bytes([good[-2] ^ 0x40]) + good[-1:],
+        "checksum_b": good[:-1] + bytes([good[-1] ^ 0x01]),
+        "length_plus_1": good[:4] + (len(pl) + 1).to_bytes(2, "little") + good[6:],
+        "length_zero": good[:4] + b"\x00\x00" + good[6:],
+    }
+    for what, x in damaged.items():
+        for pbf in (1, 0):
+            try:
+                m = UBXReader.parse(x, msgmode=e.mode, validate=0, parsebitfield=pbf)
+            except Exception:  # noqa: BLE001
+                acc.outcomes[("parsed_unvalidated", "payload", "refused")] += 1
+                continue
+            acc.evaluations += 1
+            acc.outcomes[("parsed_unvalidated", "payload", "built")] += 1
+            _, out = frame_checks(m, e.clsid, e.mode, f"parsed_with_VALNONE|{what}")
+            for key, detail in out:
+                acc.violation(key, {"kind": "unvalidated", "entry": e.label, "what": what, "pbf": pbf, "x": x.hex()}, f"{e.label}: {detail}")
+
+
 def run_payload_route(cid, ents, quick, acc):
     nom = FS.nominal_len(cid, ents)
     modes = sorted({e.mode for e in ents if e.clsid == cid}) or [GET]
@@ -335,6 +369,7 @@ def eval_block(block, acc):
             if e.routed and not C.invalid_types(e.pdict):
                 run_entry(e, quick, acc)
                 run_any_value(e, acc)
+                run_parsed_unvalidated(e, acc)
         if len(acc.samples) < 1 and acc.states:
             acc.sample({"entry": sorted(acc.states)[0], "routes": "keywords x {bytes, ints, names}"})
     elif kind == "payload":
